@@ -25,13 +25,28 @@ def limitOfEp (ep : Endpoint) (s : String) : Option (Option Nat) :=
   if s = "d" then some (effectiveLimit c ep none)
   else if s = "u" then some (effectiveLimit c ep (some .unlimited))
   else if s = "-" then some (effectiveLimit c ep (some (.assumed .dflt none)))
-  else s.toNat?.map fun n => effectiveLimit c ep (some (.assumed .dflt (some n)))
+  else
+    let optOf (x : String) : Option (Option Nat) := if x = "-" then some none else x.toNat?.map some
+    match s.splitOn "," with
+    | [a, fr, ms] =>
+      -- `N,F,M`: default().with_max_incoming_frame_size(F).with_max_incoming_message_size(M).with_assumed…(N)
+      match optOf a, optOf fr, optOf ms with
+      | some a, some fr, some ms =>
+        some (effectiveLimit c ep (some (.assumed (.lit { (defaultLimits c) with maxIncomingFrame := fr, maxIncomingMessage := ms }) a)))
+      | _, _, _ => none
+    | _ => s.toNat?.map fun n => effectiveLimit c ep (some (.assumed .dflt (some n)))
 
-def paths : List String := ["inline", "off", "joff", "push", "pushoff", "pushn", "bcast", "proxy"]
+def paths : List String := ["inline", "off", "joff", "push", "pushoff", "pushn", "bcast", "bcastj", "bcastu", "proxy"]
+
+/-- the client API used (all funnel into `write_request`; which one is not part of the model) -/
+def clientKinds : List String := ["call", "notify", "cjson", "cjsont", "ctyped", "cbeve", "rwrite", "njson", "nbeve", "batch"]
 
 def showReport (path : String) (f : LimitFacts) (size l : Nat) : String :=
   if path = "proxy" then " ; report -"
-  else if f.reports then s!" ; report {size} {l}" else " ; report -"
+  else if f.reports then
+    -- a broadcast is queued once per registered peer (the harness keeps two): each connection's writer refuses its copy
+    if path.startsWith "bcast" then s!" ; report {size} {l} ; report {size} {l}" else s!" ; report {size} {l}"
+  else " ; report -"
 
 def step (st : Unit) (ws : List String) : Unit × String :=
   let f := Gen.limitFacts
@@ -50,7 +65,7 @@ def step (st : Unit) (ws : List String) : Unit × String :=
               ++ showReport path f size l)
     | _, _, _ => (st, idx ++ " bad-op")
   | ["client", idx, kind, lim, id, qlen, blen] =>
-    match limitOfEp .client lim, (kind == "call" || kind == "notify"), [id, qlen, blen].all (·.isNat) with
+    match limitOfEp .client lim, clientKinds.contains kind, [id, qlen, blen].all (·.isNat) with
     | some limit, true, true =>
       let (q, b) := (natOf qlen, natOf blen)
       match checkOutbound f.cmp limit (lenOf f.clientLenTerms q b) with
